@@ -11,6 +11,20 @@ Two population streams go through the *same* real `select`:
     thousands of selections, populations up to 40 (where numpy's argsort is no longer stable), to
     cover the ranking / draw / index logic at volume.
 
+  * "fam": real agents of every algorithm family (DQN, DDPG, TD3, PPO, MADDPG, NeuralUCB, NeuralTS;
+    thorough also CQN, RainbowDQN, MATD3, IPPO) built by agents.py, which have ACTED and LEARNED
+    before selection.  A member is compared with its parent on all state: walker.py value
+    fingerprints per attribute group (every network, every optimizer, every other attribute
+    `clone()` handles — sigma_inv, theta_0, counters, hyper-parameters, fitness/scores/steps), the
+    greedy action on a probe, and storage sharing (walker.alias_pairs) with parents and siblings.
+  * "wire": `agilerl.utils.utils.tournament_selection_and_mutation` itself (what the training loops
+    call) with a real `Mutations` object (none / parameter / activation / architecture / RL-hp /
+    mixed; mutate_elite on/off), elitism on/off, save_elite on/off, elite_path None / "dir/x.pt" /
+    "x", accelerator None.  Judged: size, fresh distinct indices and tournament parents of the
+    returned generation; old population untouched; the elite checkpoint is written exactly where
+    the function says and loads to an agent equal (fingerprints of a save/load round trip) to the
+    fittest agent of the OLD population; nothing is written when save_elite is off.
+
 One case = ONE `TournamentSelection` object: it serves a lineage of 1-50 generations (with fresh
 scores appended, sometimes with the population re-indexed in between) and, in the "session"
 cases, afterwards one to three unrelated populations of other sizes and index ranges.  The model
@@ -56,6 +70,9 @@ import py2lean_tourn
 from common import ROOT, Check, InfraError, ddmin
 
 TAG = "verif_tag"
+FAM = "verif_family"          # (algo, observation family) on agents built through agents.py; copied by clone()
+# attribute groups (walker.py) that legitimately differ between a parent and its copy
+DIFFER_OK = {"attr:index", "attr:" + TAG}
 FINDING_ACT = "C05-clone-encoder-output-activation"
 # explicit activations: see `probe_encoder_activation` for what happens without them
 NET_CONFIG = {"encoder_config": {"hidden_size": [4], "activation": "ReLU"},
@@ -102,6 +119,26 @@ class Pool:
 
     def __init__(self):
         self.agents: list = []
+        self.families: dict = {}
+
+    def family(self, algo: str, family: str, j: int):
+        """j-th real agent of `algo` over observation family `family`, built with the smallest legal
+        networks (agents.py) and given a real history: it has acted (the bandits' confidence matrix
+        has moved away from its initial value) and learned twice (weights away from their initial
+        values, optimizer moments, counters), so that a copy that forgets or re-initialises part of
+        the state differs from its parent."""
+        import agents as A
+        lst = self.families.setdefault((algo, family), [])
+        while len(lst) <= j:
+            k = len(lst)
+            a = A.build(algo, family, seed=4100 + k, index=k, hp_config=A.default_hp_config(algo))
+            obs = A.sample_obs(a, algo, family, 4, seed=3)
+            for st in range(2):
+                A.greedy_action(a, algo, obs, torch_seed=5 + st, preserve_state=False)
+                A.learn_once(a, algo, family, seed=20 + st + k)
+            setattr(a, FAM, (algo, family))
+            lst.append(a)
+        return lst[j]
 
     @staticmethod
     def build(seed: int, index: int, net_config=None):
@@ -128,6 +165,27 @@ def is_stub(a) -> bool:
     return isinstance(a, StubAgent)
 
 
+def fam_of(a):
+    """(algo, family) of an agent built through agents.py, else None"""
+    if is_stub(a):
+        return None
+    v = getattr(a, FAM, None)
+    return tuple(v) if isinstance(v, (tuple, list)) and len(v) == 2 else None
+
+
+def modules_of(a) -> list:
+    out = []
+    nets = a.evolvable_attributes(networks_only=True)
+    for name in sorted(nets):
+        mod = nets[name]
+        out += list(mod) if isinstance(mod, list) else [mod]
+    return out
+
+
+def params_of(a) -> list:
+    return [p for m in modules_of(a) for p in m.parameters()]
+
+
 def weights_of(a) -> dict:
     if is_stub(a):
         return {"w": torch.tensor(a.w, dtype=torch.float64)}
@@ -140,26 +198,65 @@ def weights_of(a) -> dict:
 
 
 def forward_of(a):
+    """what the agent computes on a fixed probe: network outputs (DQN pool) / greedy action (families)"""
     if is_stub(a):
         return None
+    fam = fam_of(a)
+    if fam is not None:
+        import agents as A
+        try:
+            obs = A.sample_obs(a, fam[0], fam[1], 3, seed=17)
+            return ["greedy", A.greedy_action(a, fam[0], obs, torch_seed=7, preserve_state=True)]
+        except Exception as ex:   # an agent that can no longer act is reported through the comparison
+            return ["raised", type(ex).__name__]
     with torch.no_grad():
         return [a.actor(PROBE_OBS).clone(), a.actor_target(PROBE_OBS).clone()]
 
 
+def groups_of(a):
+    """walker value fingerprint per attribute group (every network, optimizer, and every other
+    attribute `clone()` handles: sigma_inv, theta_0, counters, hyper-parameters, score lists …) —
+    measured for family agents only (cost)"""
+    if fam_of(a) is None:
+        return None
+    import walker
+    return {n: walker.group_value(g) for n, g in walker.agent_groups(a).items()}
+
+
 def snapshot(a) -> dict:
     return {"index": a.index, "fitness": list(a.fitness), "scores": list(a.scores), "steps": list(a.steps),
-            "mut": a.mut, "tag": getattr(a, TAG, None), "weights": weights_of(a), "fwd": forward_of(a),
-            "ids": (id(a.fitness), id(a.scores), id(a.steps))}
+            "mut": a.mut, "tag": getattr(a, TAG, None), "weights": weights_of(a), "groups": groups_of(a),
+            "fwd": forward_of(a), "ids": (id(a.fitness), id(a.scores), id(a.steps))}
 
 
 def same_tensors(x: dict, y: dict) -> bool:
     return x.keys() == y.keys() and all(x[k].shape == y[k].shape and torch.equal(x[k], y[k]) for k in x)
 
 
+def same_value(a, b) -> bool:
+    if isinstance(a, dict):
+        return isinstance(b, dict) and a.keys() == b.keys() and all(same_value(a[k], b[k]) for k in a)
+    if isinstance(a, (list, tuple)):
+        return isinstance(b, (list, tuple)) and len(a) == len(b) and all(same_value(x, y) for x, y in zip(a, b))
+    if isinstance(a, str) or isinstance(b, str) or a is None or b is None:
+        return a == b
+    if isinstance(a, torch.Tensor):
+        a = a.detach().cpu().numpy()
+    if isinstance(b, torch.Tensor):
+        b = b.detach().cpu().numpy()
+    return np.array_equal(np.asarray(a), np.asarray(b))
+
+
 def same_fwd(x, y) -> bool:
     if x is None or y is None:
         return x is None and y is None
-    return len(x) == len(y) and all(torch.equal(a, b) for a, b in zip(x, y))
+    return same_value(x, y)
+
+
+def group_diff(now: dict, then: dict, skip=()) -> list[str]:
+    """names of the attribute groups whose value fingerprint differs"""
+    names = sorted(set(now) | set(then))
+    return [n for n in names if n not in skip and now.get(n) != then.get(n)]
 
 
 def snapshot_diff(a, s: dict) -> list[str]:
@@ -178,6 +275,10 @@ def snapshot_diff(a, s: dict) -> list[str]:
         out.append("marker changed")
     if not same_tensors(weights_of(a), s["weights"]):
         out.append("weights changed")
+    if s.get("groups") is not None:
+        d = group_diff(groups_of(a) or {}, s["groups"])
+        if d:
+            out.append("state changed: " + ", ".join(d))
     if not same_fwd(forward_of(a), s["fwd"]):
         out.append("forward output changed")
     return out
@@ -254,7 +355,7 @@ def perturb(o):
         o.w[0] += 1.0
         saved = None
     else:
-        p = next(o.actor.parameters())
+        p = params_of(o)[0]
         saved = p.detach().clone()
         with torch.no_grad():
             p.add_(1.0)
@@ -269,7 +370,7 @@ def perturb(o):
             o.w[0] -= 1.0
         else:
             with torch.no_grad():
-                next(o.actor.parameters()).copy_(saved)
+                p.copy_(saved)
     return undo
 
 
@@ -286,11 +387,17 @@ def copy_problems(label: str, child, parent, psnap: dict) -> list[str]:
     cw = weights_of(child)
     if not same_tensors(cw, psnap["weights"]):
         out.append(f"{label}: weights differ from the parent's")
-    if not same_fwd(forward_of(child), psnap["fwd"]):
+    if psnap.get("groups") is not None:
+        d = group_diff(groups_of(child) or {}, psnap["groups"], skip=DIFFER_OK)
+        if d:
+            fam = fam_of(child) or fam_of(parent) or ("?", "?")
+            out.append(f"{label}: not a faithful copy of its parent ({fam[0]} agent that has acted and learned): "
+                       f"{', '.join(d)} differ{'s' if len(d) == 1 else ''} from the parent's")
+    if not out and not same_fwd(forward_of(child), psnap["fwd"]):
         out.append(f"{label}: same weights but the networks compute different outputs than the parent's")
     if not is_stub(child):
-        mine = {q.data_ptr() for q in child.actor.parameters()}
-        if any(q.data_ptr() in mine for q in parent.actor.parameters()):
+        mine = {q.data_ptr() for q in params_of(child)}
+        if any(q.data_ptr() in mine for q in params_of(parent)):
             out.append(f"{label}: shares parameter storage with the parent")
     if out:
         return out
@@ -301,6 +408,27 @@ def copy_problems(label: str, child, parent, psnap: dict) -> list[str]:
         out.append(f"{label}: changing the copy changed the parent ({'; '.join(d)})")
     undo()
     return out
+
+
+def alias_problems(pop: list, objs: list) -> list[str]:
+    """family agents: no mutable state (network tensors, optimizer state, non-network tensors such as
+    sigma_inv / theta_0, score lists, …) is shared between an old agent and a returned one or between
+    two returned ones.  Constructor arguments handed on by reference (net_config, noise arrays:
+    walker kinds ending in ':c') are C01's subject and not judged here."""
+    if not objs or fam_of(objs[0][1]) is None:
+        return []
+    import walker
+    labelled = [(f"population[{j}]", a) for j, a in enumerate(pop)] + list(objs)
+    groups = {i: walker.agent_groups(o) for i, (_, o) in enumerate(labelled)}
+    out = []
+    for i, ga, j, gb in sorted(walker.alias_pairs(groups)):
+        if i < len(pop) and j < len(pop):
+            continue
+        ka, kb = groups[i][ga]["kind"], groups[j][gb]["kind"]
+        if ka.endswith(":c") or kb.endswith(":c") or ka in ("imm", "cal") or kb in ("imm", "cal"):
+            continue
+        out.append(f"{labelled[i][0]} and {labelled[j][0]} share storage: {ga} / {gb}")
+    return out[:4]
 
 
 def sibling_problems(objs: list) -> list[str]:
@@ -319,7 +447,7 @@ def sibling_problems(objs: list) -> list[str]:
         if is_stub(o):
             k = [id(o.w)]
         else:
-            k = [q.data_ptr() for q in o.actor.parameters()]
+            k = [q.data_ptr() for q in params_of(o)]
         for x in k:
             if x in seen and seen[x] != label:
                 out.append(f"{seen[x]} and {label} share weight storage")
@@ -371,6 +499,7 @@ def oracle(cfg, pop, snaps, calls, elite, new, draw_note=None) -> tuple[list[str
                 problems.append(f"{label} is the very object population[{j}] of the old population, not a copy")
     if problems:
         return problems, tags
+    problems += alias_problems(pop, objs)
 
     # elite = copy of an agent with maximal mean
     te = parent_of(elite)
@@ -577,10 +706,19 @@ def implementation_rank(ts, pop):
         return None, []
 
 
-def build_population(kind: str, specs: list, pool: Pool) -> list:
+FAMILY_ALGOS_QUICK = ["DQN", "DDPG", "TD3", "PPO", "MADDPG", "NeuralUCB", "NeuralTS"]
+FAMILY_ALGOS_MORE = ["CQN", "RainbowDQN", "MATD3", "IPPO"]
+
+
+def build_population(kind: str, specs: list, pool: Pool, case: dict | None = None) -> list:
     pop = []
     for j, spec in enumerate(specs):
-        a = pool.get(j) if kind == "real" else StubAgent(j)
+        if kind == "real":
+            a = pool.get(j)
+        elif kind in ("fam", "wire"):
+            a = pool.family(case["algo"], case.get("family", "vector"), j)
+        else:
+            a = StubAgent(j)
         a.index = int(spec["index"])
         a.fitness = [float(Fraction(s)) for s in spec["fitness"]]
         a.scores = [float(j), float(-j)]
@@ -595,6 +733,8 @@ def run_case(case: dict, pool: Pool):
     """runs every population / generation of a case through ONE selector object of the real
     implementation.  returns (impl_lines, model_op_lines, problems, tags)"""
     from agilerl.hpo.tournament import TournamentSelection
+    if case["kind"] == "wire":
+        return run_wire_case(case, pool)
     k, e, n, w = case["cfg"]
     cfg = (int(k), bool(e), int(n), int(w))
     impl, ops, problems, tags = [], [], [], []
@@ -604,6 +744,8 @@ def run_case(case: dict, pool: Pool):
         return ["reject"], [f"tourn cfg {cfg[0]} {1 if cfg[1] else 0} {cfg[2]} {cfg[3]}"], [], ["ctor-reject"]
     if case["kind"] == "stub":
         Pool.template()
+    if case["kind"] == "fam":
+        tags.append(f"family-{case['algo']}")
     segments = segments_of(case)
     if not segments[0]["agents"] and len(segments) == 1:
         try:
@@ -624,7 +766,7 @@ def run_case(case: dict, pool: Pool):
         specs = seg["agents"]
         if not specs:
             continue
-        pop = build_population(case["kind"], specs, pool)
+        pop = build_population(case["kind"], specs, pool, case)
         if cfg[0] > len(pop):
             tags.append("tsize>population")
         if cfg[2] != len(pop):
@@ -670,6 +812,189 @@ def run_case(case: dict, pool: Pool):
     return impl, ops, problems, tags
 
 
+def gen_family_case(rng: random.Random, algo: str, family: str = "vector", wire: bool = False) -> dict:
+    """select() (kind "fam") or tournament_selection_and_mutation (kind "wire") on real agents of `algo`
+    that have acted and learned"""
+    npop = rng.choice([2, 3, 3])
+    n = rng.choice([npop, npop, 2, 4]) if not wire else rng.choice([npop, 2, 3])
+    k = rng.randint(1, npop + 1)
+    w = rng.choice([1, 2, 3])
+    e = rng.random() < 0.6
+    pool = VALUE_POOLS[rng.choice(["small-int", "binary", "quarters"])]
+    style = rng.choice(["low", "offset", "mixed"])
+    case = {"kind": "wire" if wire else "fam", "algo": algo, "family": family, "cfg": [k, e, n, w],
+            "agents": gen_agents(rng, npop, w, pool, style), "seed": rng.randrange(1 << 30),
+            "gens": 1 if wire else rng.choice([1, 1, 2]), "pool": [str(v) for v in pool]}
+    if wire:
+        case["save_elite"] = rng.random() < 0.8
+        case["elite_path"] = rng.choice([None, "elite_dir/best.pt", "best_agent"])
+        case["mutate_elite"] = rng.random() < 0.5
+        case["mutation"] = rng.choice(["param", "param", "rl_hp", "none", "act", "arch", "mixed"])
+    return case
+
+
+def mutations_for(kind: str, mutate_elite: bool, seed: int):
+    """a real Mutations object whose draw is (almost) always of the named kind"""
+    from agilerl.hpo.mutation import Mutations
+    p = {"no_mutation": 0.0, "architecture": 0.0, "parameters": 0.0, "activation": 0.0, "rl_hp": 0.0}
+    key = {"none": "no_mutation", "arch": "architecture", "param": "parameters", "act": "activation",
+           "rl_hp": "rl_hp"}.get(kind)
+    if key is None:                                   # mixed
+        p = {k: 0.2 for k in p}
+    else:
+        p[key] = 1.0
+    return Mutations(no_mutation=p["no_mutation"], architecture=p["architecture"], new_layer_prob=0.5,
+                     parameters=p["parameters"], activation=p["activation"], rl_hp=p["rl_hp"], mutation_sd=0.5,
+                     mutate_elite=bool(mutate_elite), rand_seed=seed % (2 ** 31), device="cpu")
+
+
+def checkpoint_groups(agent, path: str):
+    """value fingerprints of what a checkpoint of `agent` restores (save + Algo.load)"""
+    agent.save_checkpoint(path)
+    loaded = type(agent).load(path)
+    import walker
+    return loaded, {n: walker.group_value(g) for n, g in walker.agent_groups(loaded).items()}
+
+
+def run_wire_case(case: dict, pool: Pool):
+    """the wiring every training loop uses: `tournament_selection_and_mutation(population, tournament,
+    mutation, env_name, algo, elite_path, save_elite)` with a real Mutations object, accelerator None.
+    Judged: the returned generation (size, fresh distinct indices, parents = tournament winners), the old
+    population untouched, and the check-pointed elite = the fittest agent of the OLD population."""
+    import os
+    import shutil
+    import tempfile
+    import walker
+    from agilerl.hpo.tournament import TournamentSelection
+    from agilerl.utils import utils as U
+    k, e, n, w = case["cfg"]
+    cfg = (int(k), bool(e), int(n), int(w))
+    tags = ["wiring", f"family-{case['algo']}", "elitism-on" if cfg[1] else "elitism-off",
+            f"mutation-{case['mutation']}", "mutate-elite" if case["mutate_elite"] else "keep-elite",
+            "save-elite" if case["save_elite"] else "no-save"]
+    ts = TournamentSelection(*cfg)
+    pop = build_population("wire", case["agents"], pool, case)
+    mut = mutations_for(case["mutation"], case["mutate_elite"], case["seed"])
+    snaps = [snapshot(a) for a in pop]
+    tmp = tempfile.mkdtemp(prefix="c05wire_")
+    cwd = os.getcwd()
+    calls: list[list[int]] = []
+    orig = np.random.randint
+
+    def recording(*a, **kw):
+        r = orig(*a, **kw)
+        calls.append([int(v) for v in np.asarray(r).reshape(-1)])
+        return r
+    problems: list[str] = []
+    env_name = "verifenv"
+    rel = case.get("elite_path")
+    elite_path = None if rel is None else os.path.join(tmp, rel)
+    if elite_path is not None:
+        os.makedirs(os.path.dirname(elite_path), exist_ok=True)
+    expected = (elite_path.split(".pt")[0] if elite_path is not None
+                else os.path.join(tmp, f"{env_name}-elite_{type(pop[0]).__name__}")) + ".pt"
+    try:
+        os.chdir(tmp)
+        np.random.seed(case["seed"] % (2 ** 32))
+        random.seed(case["seed"])
+        torch.manual_seed(case["seed"])
+        np.random.randint = recording
+        try:
+            with warnings.catch_warnings():
+                warnings.simplefilter("ignore")
+                new = U.tournament_selection_and_mutation(pop, ts, mut, env_name, elite_path=elite_path,
+                                                          save_elite=bool(case["save_elite"]))
+        finally:
+            np.random.randint = orig
+            os.chdir(cwd)
+        n_kids = max(0, cfg[2] - (1 if cfg[1] else 0))
+        draws, draw_note = settle_draws(cfg, len(pop), len(new), calls[:n_kids], case["seed"])
+        keys = [key_of(s["fitness"], cfg[3]) for s in snaps]
+        best = max(keys)
+        tops = [j for j, x in enumerate(keys) if x == best]
+        if len(tops) > 1:
+            tags.append("tie-at-top")
+        # ---- the returned generation
+        if len(new) != cfg[2]:
+            problems.append(f"returned population has {len(new)} members, population_size is {cfg[2]}")
+        idx = [c.index for c in new]
+        if len(set(idx)) != len(idx):
+            problems.append(f"indices of the returned population are not distinct: {idx}")
+        old_max = max(s["index"] for s in snaps)
+        off = 1 if cfg[1] else 0
+        for j, c in enumerate(new):
+            if any(c is a for a in pop):
+                problems.append(f"returned member {j} is an object of the old population")
+            t = getattr(c, TAG, None)
+            if not (isinstance(t, int) and 0 <= t < len(pop)):
+                problems.append(f"returned member {j} carries no recoverable parent")
+                continue
+            if j < off:
+                if keys[t] != best or c.index != snaps[t]["index"]:
+                    problems.append(f"elitism: first returned member (index {c.index}, parent mean {show_key(keys[t])}) "
+                                    f"is not the fittest old agent (mean {show_key(best)})")
+            else:
+                if not c.index > old_max:
+                    problems.append(f"returned member {j} got index {c.index}, not above the old indices (max {old_max})")
+                if j - off < len(draws):
+                    drawn = draws[j - off]
+                    if t not in drawn or any(keys[t] < keys[d] for d in drawn):
+                        problems.append(f"returned member {j}: parent (position {t}, mean {show_key(keys[t])}) is not the "
+                                        f"best of the drawn {drawn}" + (f" [{draw_note}]" if draw_note else ""))
+            if list(c.fitness) != snaps[t]["fitness"]:
+                problems.append(f"returned member {j}: fitness history {list(c.fitness)} is not its parent's")
+        # ---- old population untouched
+        for j, (a, s_) in enumerate(zip(pop, snaps)):
+            d = snapshot_diff(a, s_)
+            if d:
+                problems.append(f"old population changed by selection/mutation: position {j}: {'; '.join(d)}")
+        # ---- the check-pointed elite
+        written = sorted(os.path.join(dp, f) for dp, _, fs in os.walk(tmp) for f in fs)
+        loaded_line = "E * *"
+        if not case["save_elite"]:
+            if written:
+                problems.append(f"save_elite=False but files were written: {[os.path.relpath(x, tmp) for x in written]}")
+        elif not os.path.exists(expected):
+            problems.append(f"save_elite=True but {os.path.relpath(expected, tmp)} was not written "
+                            f"(found {[os.path.relpath(x, tmp) for x in written]})")
+        else:
+            loaded = type(pop[0]).load(expected)
+            got = {n_: walker.group_value(g) for n_, g in walker.agent_groups(loaded).items()}
+            misses = []
+            for c_ in tops:
+                _, want = checkpoint_groups(pop[c_], os.path.join(tmp, f"_ref_{c_}.pt"))
+                d = group_diff(got, want)
+                if not d:
+                    misses = []
+                    break
+                misses.append((c_, d))
+            if misses:
+                c_, d = min(misses, key=lambda m: len(m[1]))
+                problems.append(
+                    f"the check-pointed elite is not the fittest agent of the old population: it loads to index "
+                    f"{loaded.index}, fitness {list(loaded.fitness)}, mut {loaded.mut!r}; the fittest old agent "
+                    f"(position {c_}) has index {snaps[c_]['index']}, fitness {snaps[c_]['fitness']}; differing state: "
+                    f"{', '.join(d[:8])}")
+            kk = show_key(key_of(list(loaded.fitness), cfg[3]))
+            # (the marker attribute is not part of a checkpoint) "keeps its parent's index" = carries the
+            # index of one of the fittest old agents
+            keep = loaded.index in {snaps[c_]["index"] for c_ in tops}
+            loaded_line = f"E {kk} {'keep' if keep else loaded.index}"
+        parts = [loaded_line]
+        for j, c in enumerate(new):
+            t = getattr(c, TAG, None)
+            pk = show_key(keys[t]) if isinstance(t, int) and 0 <= t < len(pop) else "?"
+            slot = bool(cfg[1] and j == 0)
+            ix = "keep" if slot and isinstance(t, int) and 0 <= t < len(pop) and c.index == snaps[t]["index"] else str(c.index)
+            parts.append(f"{pk} {ix} {1 if slot else 0}")
+        impl = ["ok"] * (1 + len(snaps)) + [" ; ".join(parts)]
+        ops = model_lines(cfg, snaps, draws, None)
+    finally:
+        os.chdir(cwd)
+        shutil.rmtree(tmp, ignore_errors=True)
+    return impl, ops, problems, tags
+
+
 def driver_run(chk: Check, lines: list[str]) -> list[str]:
     """the lake workspace is shared: another build may be relinking the driver this very second"""
     import time
@@ -700,6 +1025,8 @@ def evaluate(chk: Check, cases: list[dict], pool: Pool):
     for impl, ops, problems, tags in runs:
         model = out[pos:pos + len(ops)]
         pos += len(ops)
+        model = [("E * *" + b[b.index(" ; "):] if a.startswith("E * *") and b.startswith("E ") and " ; " in b else b)
+                 for a, b in zip(impl, model)] + model[len(impl):]
         diff = next((i for i, (a, b) in enumerate(zip(impl, model)) if a != b), None)
         if diff is None and len(impl) != len(model):
             diff = min(len(impl), len(model))
@@ -831,7 +1158,11 @@ def run(chk: Check) -> None:
                 "histories with many ties, negatives, unequal lengths, shorter than the window, sometimes empty; "
                 "recorded np.random.randint draws replayed in the model; one selector object per case: chains of "
                 "20-50 generations with fresh scores appended (half of them with re-indexing in between) and "
-                "sessions in which the same selector then serves 1-3 unrelated populations; distinct = distinct case; non-trivial = a tournament drew two different agents "
+                "sessions in which the same selector then serves 1-3 unrelated populations; select() on populations of "
+                "every algorithm family whose agents have acted and learned (all state compared with the parent's "
+                "through walker fingerprints); tournament_selection_and_mutation with a real Mutations object, "
+                "save_elite on/off, elite_path variants, elitism on/off, mutate_elite on/off (the check-pointed elite "
+                "must load to the fittest old agent); distinct = distinct case; non-trivial = a tournament drew two different agents "
                 "or the top mean is tied")
     chk.assumptions = [
         "fitness scores in the correspondence are small integers or quarters, so float sums are exact and the "
@@ -839,8 +1170,11 @@ def run(chk: Check) -> None:
         "np.argsort orders NaN last (numpy's documented sort order); histories are non-empty inside the training "
         "loops — the theorems about exact means assume evaluated agents, the model covers NaN as top element",
         "parent identity is recovered from a marker attribute that clone() copies like any other attribute",
-        "clone() internals (optimizer state, registry, hooks) belong to C01; here a copy is compared by weights, "
-        "forward output on a probe batch, fitness/scores/steps and list/tensor storage identity",
+        "clone() internals belong to C01; here a copy is compared by weights, forward output on a probe batch, "
+        "fitness/scores/steps and list/tensor storage identity, and for the algorithm-family stream by the walker's "
+        "value fingerprint of every attribute group (constructor arguments handed on by reference are not judged)",
+        "the elite checkpoint is compared with a save/load round trip of the fittest old agent, so what a checkpoint "
+        "does not store (C07) is not judged here",
     ]
     pool = Pool()
     cases = load_corpus()
@@ -859,13 +1193,29 @@ def run(chk: Check) -> None:
         cases.append(gen_case(rng, "real", chk.tier, session=True))
     for _ in range(n_sess_stub):
         cases.append(gen_case(rng, "stub", chk.tier, session=True))
+    # every algorithm family, agents with a real history (acted + learned): select() and the wiring around it
+    fam_algos = FAMILY_ALGOS_QUICK if quick else FAMILY_ALGOS_QUICK + FAMILY_ALGOS_MORE
+    for rep in range(1 if quick else 4):
+        for algo in fam_algos:
+            fam = "vector" if (quick or rep < 2) else rng.choice(["vector", "image"])
+            cases.append(gen_family_case(rng, algo, fam))
+    wire_algos = ["DQN", "NeuralUCB", "DDPG", "PPO"] if quick else ["DQN", "NeuralUCB", "DDPG", "PPO", "TD3", "NeuralTS",
+                                                                   "CQN", "MADDPG"]
+    for rep in range(2 if quick else 6):
+        for algo in wire_algos:
+            cases.append(gen_family_case(rng, algo, "vector", wire=True))
+    # the two configurations in which "elite" and "first member of the mutated generation" differ most
+    cases.append(dict(gen_family_case(rng, "DQN", "vector", wire=True), save_elite=True, mutate_elite=True,
+                      mutation="param", cfg=[2, True, 3, 2]))
+    cases.append(dict(gen_family_case(rng, "DQN", "vector", wire=True), save_elite=True, mutate_elite=False,
+                      mutation="none", cfg=[2, False, 3, 2]))
     # rejected inputs: the constructor's assertions and the empty population
     for bad in ([0, True, 3, 2], [2, True, 0, 2], [2, False, 3, 0]):
         cases.append({"kind": "stub", "cfg": bad, "agents": [{"index": 0, "fitness": ["1"]}], "seed": 1, "gens": 1})
     cases.append({"kind": "stub", "cfg": [2, True, 3, 2], "agents": [], "seed": 1, "gens": 1})
 
-    ndiff = {"real": 0, "stub": 0}
-    count = {"real": 0, "stub": 0}
+    ndiff = {"real": 0, "stub": 0, "fam": 0, "wire": 0}
+    count = {"real": 0, "stub": 0, "fam": 0, "wire": 0}
     for start in range(0, len(cases), 200):
         if len(chk.violations) >= 5:
             chk.notes.append(f"stopped after {len(chk.violations)} violations; {len(cases) - start} cases not run")
@@ -875,8 +1225,10 @@ def run(chk: Check) -> None:
             count[case["kind"]] += 1
             nontrivial = any(t in ("tournament-distinct-drawn", "tie-at-top") for t in tags)
             key = [case["kind"], case["cfg"], case["agents"], case["seed"], case["gens"], case.get("more"),
-                   case.get("reindex")]
-            sample = {"kind": case["kind"], "cfg(tsize,elitism,popsize,window)": case["cfg"],
+                   case.get("reindex"), case.get("algo"), case.get("mutation"), case.get("save_elite"),
+                   case.get("mutate_elite"), case.get("elite_path")]
+            sample = {"kind": case["kind"] + (":" + case["algo"] if case.get("algo") else ""),
+                      "cfg(tsize,elitism,popsize,window)": case["cfg"],
                       "agents": case["agents"][:4], "gens": case["gens"],
                       "further_populations_same_selector": len(case.get("more", [])),
                       "observed": impl[-1][:160] if impl else None}
@@ -891,6 +1243,8 @@ def run(chk: Check) -> None:
                               no_input=not problems)
     chk.suite("select-real-agents", count["real"], ndiff["real"])
     chk.suite("select-duck-typed-agents", count["stub"], ndiff["stub"])
+    chk.suite("select-all-algorithm-families-after-acting-and-learning", count["fam"], ndiff["fam"])
+    chk.suite("tournament_selection_and_mutation-wiring", count["wire"], ndiff["wire"])
     probe_encoder_activation(chk)
     if chk.tier == "thorough":
         selftest(chk, pool)
@@ -979,6 +1333,30 @@ def selftest(chk: Check, pool: Pool) -> None:
         return elite, new
 
     session_cases = [gen_case(rng, "stub", "quick", session=True) for _ in range(60)]
+
+    def clone_reinit_bandit_state(self, index=None, wrap=True):
+        c = orig_clone(self, index, wrap)
+        if hasattr(c, "sigma_inv") and isinstance(c.sigma_inv, torch.Tensor):
+            c.sigma_inv = torch.eye(c.sigma_inv.shape[0], dtype=c.sigma_inv.dtype)   # fault: statistics forgotten
+        return c
+
+    from agilerl.utils import utils as U
+
+    def wiring_saves_member0(population, tournament, mutation, env_name, algo=None, elite_path=None,
+                             save_elite=False, accelerator=None, language_model=False):
+        if algo is None:
+            algo = population[0].__class__.__name__
+        elite, population = tournament.select(population)
+        population = mutation.mutation(population)
+        if save_elite:
+            path = elite_path.split(".pt")[0] if elite_path is not None else f"{env_name}-elite_{algo}"
+            population[0].save_checkpoint(f"{path}.pt")                  # fault: not the elite select returned
+        return population
+
+    fam_cases = [gen_family_case(rng, a) for a in ("NeuralUCB", "NeuralTS", "DQN")]
+    wire_cases = [dict(gen_family_case(rng, a, wire=True), save_elite=True, mutate_elite=True, mutation="param")
+                  for a in ("DQN", "NeuralUCB", "DDPG")]
+    wire_cases += [dict(gen_family_case(rng, "DQN", wire=True), save_elite=True, cfg=[2, False, 3, 1])]
     orig_clone = EvolvableAlgorithm.clone
 
     def aliasing_clone(self, index=None, wrap=True):
@@ -998,6 +1376,10 @@ def selftest(chk: Check, pool: Pool) -> None:
         ("elite and new_population[0] are one object", TS, "select", select_elite_is_member0, stub_cases + [real_case]),
         ("elite is the old member itself when elitism is off", TS, "select", select_elite_uncloned, stub_cases),
         ("two members share their scores list", TS, "select", select_siblings_share_scores, stub_cases + [real_case]),
+        ("clone re-initialises the bandits' confidence matrix", EvolvableAlgorithm, "clone", clone_reinit_bandit_state,
+         fam_cases),
+        ("the wiring check-points the first member of the mutated generation as elite", U,
+         "tournament_selection_and_mutation", wiring_saves_member0, wire_cases),
     ]
     for name, owner, attr, fn, cases in faults:
         orig = getattr(owner, attr)
@@ -1012,7 +1394,7 @@ def selftest(chk: Check, pool: Pool) -> None:
             raise InfraError(f"C05 self-test: seeded fault '{name}' was not noticed by the oracle")
         chk.notes.append(f"self-test: '{name}' noticed (oracle {by_oracle}/{len(res)} cases, model diff {by_diff}/{len(res)})")
     # and the unpatched implementation is clean on the same cases
-    res = evaluate(chk, stub_cases[:20] + session_cases[:20] + [real_case], pool)
+    res = evaluate(chk, stub_cases[:20] + session_cases[:20] + [real_case] + fam_cases + wire_cases, pool)
     if any(p or d is not None for d, p, *_ in res):
         raise InfraError("C05 self-test: the restored implementation is flagged on the self-test cases")
 
